@@ -100,7 +100,10 @@ fdprintf(const char *fmt, ...)
 	int tp;
 
 	va_list vap;
+	va_list vaq;
 	va_start(vap, fmt);
+	/* the arguments may have to be gone through twice */
+	va_copy(vaq, vap);
 
 	/* try and write */
 	tp = vsnprintf(
@@ -112,8 +115,9 @@ fdprintf(const char *fmt, ...)
 		/* ... try the formatting again */
 		tp = vsnprintf(
 			fd_aux.buf + fd_aux.bi, sizeof(fd_aux.buf) - fd_aux.bi,
-			fmt, vap);
+			fmt, vaq);
 	}
+	va_end(vaq);
 	va_end(vap);
 
 	/* reassign and out */
